@@ -40,25 +40,36 @@ TRUSTED_BASE = [
     "Coq 8.16.1 kernel + vm_compute (no native_compute)",
     "hand-written model coq/model/C12_Model.v tied to synkit/Graph/Matcher/mcs_matcher.py and synkit/Graph/MTG/mcs_matcher.py "
     "by the per-run correspondence (ordered mapping lists, last_size, orientation flag, number of k-subsets tried, all three directions)",
-    "networkx VF2 GraphMatcher.subgraph_isomorphisms_iter enumerates exactly the label-preserving induced-subgraph isomorphisms "
-    "(modelled by the verified enumerator lib/Mono.v; monitored: result sets compared on every case)",
+    "networkx VF2 GraphMatcher.subgraph_isomorphisms_iter returns, for every k-subset of the pattern, the same SET of label-preserving "
+    "induced sub-graph isomorphisms as the verified enumerator lib/Mono.v (theorem C12_vf2_premise: the search depends on the enumerator "
+    "only through these sets; monitored: ordered result lists compared on every case)",
     "harness encoders harness/props/C12.py (attribute interning, half-unit bond orders)",
 ]
 ASSUMPTIONS = ["node ids are distinct ints; no self-loops; simple undirected graphs",
                "node attribute values compared are str or int (interned injectively); bond orders are numeric half-integers or missing",
-               "MTG variant: every bond carries the order attribute (its _edge_match rejects a missing order even against a missing order)"]
+               "MTG variant: within one case the bond order is missing on at most one of the two graphs (its _edge_match rejects a missing order even against a missing order, which the model reproduces; two-sided gaps are not generated)"]
 TESTED_NOT_PROVED = ["prune_automorphisms=True (representative depends on VF2 enumeration order): oracle only -- every kept mapping valid, "
                      "maximum, host-node sets pairwise distinct and covering the host sets of all maximum mappings",
                      "mcs_mol / component-wise modes: oracle only (validity of the combined mapping)"]
-LEVEL_TEXT = ("Machine-checked proof (Coq) over an executable model of MCSMatcher._search_subgraphs / _prepare_orientation / "
-              "find_common_subgraph / get_mappings (both copies of the matcher): every returned mapping is an injective label-preserving map "
-              "that preserves presence and order of bonds both ways; the result is EXACTLY the set of common induced mappings of the "
-              "maximum size (maximum mode) or of every size >= 1 (all-sizes mode); no larger common induced mapping exists; the result is "
-              "non-empty iff some pair of atoms matches; G1->G2 and G2->G1 are position-wise mutually inverse; swapping the arguments "
-              "(first graph larger) gives the inverse result set. Model and code are compared on every run.")
-LEVEL_NOTE = ("Trusted: Coq kernel + vm_compute; the hand-written model and encoders; networkx VF2 as the enumerator of induced subgraph "
-              "isomorphisms (compared with the verified enumerator on every case). Not modelled: prune_automorphisms, mcs_mol, "
-              "find_rc_mapping's component mode (oracle-checked for validity only).")
+LEVEL_TEXT = ("Machine-checked proof (Coq, 20 theorems in coq/props/C12.v, all closed under the global context) over an executable model "
+              "of MCSMatcher._search_subgraphs / _prune_graph / _prepare_orientation / find_common_subgraph / get_mappings (both copies of "
+              "the matcher), for all pairs of graphs with distinct node ids: every returned mapping (both modes, all three directions, after "
+              "orientation swap and wildcard pruning) is a function, injective, label-preserving, and preserves presence AND order of every "
+              "bond between mapped atoms both ways (C12_valid, C12_valid_original); in maximum mode all mappings have size last_size, NO "
+              "common induced mapping is larger, and every one of that size is returned up to the order of its pairs (C12_maximum; "
+              "all-sizes mode: exactly the non-empty common induced mappings, C12_all_sizes); non-empty iff some atom pair matches; "
+              "G1->G2 and G2->G1 answers are position-wise mutually inverse (C12_directions_inverse); exchanging the arguments gives the "
+              "same size and the same answers (C12_orientation_swap: equal lists for different sizes; C12_orientation_general: up to pair "
+              "order for equal sizes); no mapping is returned twice. The level-by-level search is related to the verified enumerator "
+              "lib/Mono.v (induced) by C12_level_exact; the dependence on networkx VF2 is the explicit premise of C12_vf2_premise (same "
+              "result SET per k-subset). Model and code are compared on every run (ordered lists, sizes, subset counts).")
+LEVEL_NOTE = ("Trusted: Coq kernel + vm_compute; the hand-written model and encoders; networkx VF2 returns, for every k-subset, the same set of "
+              "induced sub-graph isomorphisms as the verified enumerator (C12_vf2_premise states that nothing else about VF2 matters; "
+              "monitored: ordered result lists compared on every case). Not modelled, oracle only: prune_automorphisms, mcs_mol, "
+              "find_rc_mapping's component mode. Not proved (compared only): sort order of the returned list, last_size in all-sizes mode.")
+TECHNIQUE = ("Coq proof about a structure-following Gallina model (loop invariants of the size-descending search, refinement to the "
+             "verified enumerator Mono.monos via an order-free reading of Mono.valid, transport through inversion for the orientation swap) "
+             "+ per-run correspondence by vm_compute + independent brute-force oracle")
 
 ELEM_KEY = "element"
 WILDCARD = "*"
